@@ -5,11 +5,13 @@ dumped with exact floats together with the generator's ground truth and judged b
 (`ds` command of moyo_model, Moyo/Model/Oracle.lean), in exact rational arithmetic.  A failed clause
 tagged with the property id is a violation; the case line is the replay.
 """
+import collections
 import hashlib
 import json
 import os
 import re
 import time
+from fractions import Fraction
 
 import vlib
 from vlib import log
@@ -84,8 +86,22 @@ def run_mode(mode, tier, seed, key):
         return reqs, ans, False
 
 
+STAGE_STATS = collections.Counter()   # filled by the stage comparisons (fragile / branch / hypothesis counts)
+
+
+def stage_request(kind, req, exp):
+    """Request line sent to the model: the stage inputs, plus oracle parameters from the implementation's output for S6."""
+    if kind == "s6":
+        from checks import stages_s6
+        return stages_s6.request(kind, req, exp)
+    return req
+
+
 def stage_compare(kind, exp, out):
     """Compare implementation output `exp` with model answer `out` for a stage line; None if they agree."""
+    if kind in ("s6", "s7"):
+        from checks import stages_s6
+        return stages_s6.compare(kind, exp, out, STAGE_STATS)
     if exp == out:
         return None
     et, ot = exp.split(), out.split()
@@ -93,7 +109,57 @@ def stage_compare(kind, exp, out):
         if et[:2] != ot[:2]:
             return f"count {ot[:2]} vs {et[:2]}"
         return vlib.ops_equal(et[4:], ot[4:])
+    if kind == "s5":
+        return s5_compare(exp, out)
     return f"model {out[:120]} vs implementation {exp[:120]}"
+
+
+def translate_s5():
+    """Regenerate Moyo/Generated/S5Table.lean (correction matrices of identify/space_group.rs).  If the translator cannot
+    parse the source any more, the generated file is replaced by one that does not elaborate, so that the stage-S5
+    theorems are reported as obligations that no longer check (never silently stale)."""
+    import subprocess
+    import sys
+    if os.environ.get("VERIF_REPO"):
+        return
+    tr = os.path.join(vlib.VERIF, "tools", "translate_s5.py")
+    with vlib.Lock("lake"):
+        r = subprocess.run([sys.executable, tr], capture_output=True, text=True, cwd=vlib.VERIF)
+        if r.returncode != 0:
+            out = os.path.join(vlib.LEAN, "Moyo", "Generated", "S5Table.lean")
+            msg = (r.stdout + r.stderr)[-1500:].replace("-/", "- /")
+            with open(out, "w") as f:
+                f.write("-- GENERATED by checks/pipe.py: tools/translate_s5.py FAILED on the current tree\n/-\n" + msg +
+                        "\n-/\nexample : False := by decide\n")
+
+
+def s5_compare(exp, out):
+    """Stage S5 (SpaceGroup::new): verdict, number, Hall number and `linear` exactly, origin shift to 1e-9 modulo 1.
+    The model appends `; fragile 0|1` (a compared quantity within 1e-9 of epsilon): fragile cases are not compared."""
+    m = re.match(r"(.*) ; fragile ([01])$", out)
+    if not m:
+        return f"model answer unparsed: {out[:160]}"
+    body, fragile = m.group(1), m.group(2) == "1"
+    if fragile:
+        S5_FRAGILE.append(exp[:80])
+        return None
+    if exp == body:
+        return None
+    et, bt = exp.split(" ; "), body.split(" ; ")
+    if et[0] != "ok" or bt[0] != "ok":
+        return f"model {body[:160]} vs implementation {exp[:160]}"
+    if et[1:4] != bt[1:4]:
+        return f"model {' ; '.join(bt[1:4])} vs implementation {' ; '.join(et[1:4])}"
+    es, bs = et[4].split()[1:], bt[4].split()[1:]
+    for a, b in zip(es, bs):
+        d = vlib.parse_num(a) - vlib.parse_num(b)
+        d -= round(d)
+        if abs(d) > Fraction(1, 10**9):
+            return f"origin shift model {[float(vlib.parse_num(x)) for x in bs]} vs implementation {[float(vlib.parse_num(x)) for x in es]}"
+    return None
+
+
+S5_FRAGILE = []
 
 
 def run_stages(kinds, tier, seed, key):
@@ -108,8 +174,20 @@ def run_stages(kinds, tier, seed, key):
             if r.returncode != 0:
                 raise RuntimeError("stage-gen failed: " + r.stderr[-2000:])
     reqs, exps = vlib.read_cases(cases)
-    sel = [i for i, q in enumerate(reqs) if q.split(" ", 1)[0] in kinds]
-    outs = vlib.run_model([reqs[i] for i in sel])
+    if "s5" in kinds:
+        # stage S5 also gets the exhaustive table run of harness/src/s5.rs: all 530 settings x {Spglib, Standard, HallNumber(h)}
+        # on the tabulated primitive operations, plus neighbouring / out-of-range requests, noisy and re-based operations
+        tcases = os.path.join(cdir, f"s5table_{tier}_{seed}.cases")
+        with vlib.Lock(f"s5table_{tier}_{seed}"):
+            if not os.path.exists(tcases):
+                r = vlib.harness(["s5-table", tier, tcases + ".tmp"], seed=seed)
+                if r.returncode != 0:
+                    raise RuntimeError("s5-table failed: " + r.stderr[-2000:])
+                os.replace(tcases + ".tmp", tcases)
+        r2, e2 = vlib.read_cases(tcases)
+        reqs, exps, kinds = reqs + r2, exps + e2, list(kinds) + ["s5pg"]
+        del S5_FRAGILE[:]
+    outs = vlib.run_model([stage_request(reqs[i].split(" ", 1)[0], reqs[i], exps[i]) for i in sel])
     bad = []
     for i, o in zip(sel, outs):
         m = stage_compare(reqs[i].split(" ", 1)[0], exps[i], o)
@@ -207,6 +285,10 @@ def run_property(pid, tier, seed, modes, props, level_text_keys, nontrivial, ext
             cov["stage_cases_compared"] = nst
             cov["stage_model_impl_disagreements"] = len(stage_bad)
             cov["stages"] = stages
+            if "s5" in stages:
+                cov["s5_fragile_excluded"] = len(S5_FRAGILE)
+            if STAGE_STATS:
+                cov["stage_stats"] = dict(STAGE_STATS)
         except RuntimeError as e:
             stage_bad = [("stage-gen", str(e))]
     cov["evaluations"] = total
